@@ -54,7 +54,7 @@ func gen(idx int) scase {
 	c.Dispatchers = r.Range(1, 4)
 	c.Lines = mon.N(12000, 30000)
 	c.LineLen = r.PickInt([]int{100, 300, 1000})
-	c.ConnBuf = r.PickInt([]int{10, 100, 1000})
+	c.ConnBuf = r.PickInt([]int{0, 10, 100, 1000})
 	c.IoBuf = r.PickInt([]int{512, 4096, 65536})
 	c.Flush = r.PickInt([]int{5, 50, 500})
 	switch c.Script {
@@ -69,7 +69,8 @@ func gen(idx int) scase {
 	case "throttled-fast":
 		c.Rate = r.Range(100, 500) * 1000
 	case "healthy-tinybuf":
-		c.ConnBuf, c.IoBuf = 1, 64
+		// connbuf=0 is accepted: the connection's queue is unbuffered, a hand-off only succeeds while its writer waits
+		c.ConnBuf, c.IoBuf = r.PickInt([]int{0, 1}), 64
 	case "healthy-many-dispatchers":
 		c.Dispatchers = 8
 	}
